@@ -306,6 +306,7 @@ func runC10(rc *RunCtx) {
 			}
 		}
 	}
+	ProbeHistory(rc, rc.Pick(240, 900), false)
 	for h := 0; h < rc.Pick(1, 3); h++ {
 		e, err := NewHistoryEngine(rc, GenOpts{}, false, false)
 		if err == nil {
@@ -462,6 +463,7 @@ func runC11(rc *RunCtx) {
 	rc.Cov.Extra["exhaustive"] = true
 	rc.Cov.Sample(map[string]interface{}{"universe_accounts": U, "state_shape": "(owner, pending|none, attester manager, pauser, token controller)",
 		"actions_per_state": "every role transaction x every submitter x every new holder, accept by every account, one representative of the other 20 types"})
+	ProbeHistory(rc, rc.Pick(240, 900), false)
 	// multi-step random walks (supersession, replayed accept)
 	for w := 0; w < rc.Pick(1, 4); w++ {
 		e, err := StdEngine(rc, false, false, nil)
@@ -781,6 +783,7 @@ func runC13(rc *RunCtx) {
 	rc.Cov.Extra["transitions"] = float64(transitions)
 	rc.Cov.Extra["exhaustive"] = true
 	rc.Cov.Sample(map[string]interface{}{"universe_keys": K, "state_shape": "(enabled subset, threshold) with 1 <= threshold <= |subset|", "actions": "enable k / disable k in 4 spellings, disable unknown, set threshold 0..n+1 and 2^32-1, actions by a non-manager"})
+	ProbeHistory(rc, rc.Pick(300, 900), false)
 	// random walks
 	for w := 0; w < rc.Pick(2, 8); w++ {
 		e, err := StdEngine(rc, false, false, nil)
